@@ -12,6 +12,8 @@ from __future__ import annotations
 import vlib.boot  # noqa: F401
 from vlib.boot import B, drive
 from vlib.ob import obligation
+from workflows import Context, Workflow, step  # noqa: F401,E402  (module scope for step annotations)
+from workflows.events import Event as _Event  # noqa: E402
 from vlib.world import (
     EVA, EVB, EVC, EvA, EvB, EvC, StartEvent, StubPolicy, rep_R1, rep_R2, world_ab, world_ab_valid,
 )
@@ -270,8 +272,17 @@ def ob_runner_reach(delay: int, n: int, nfail: int, inject: int, d0: int, d1: in
 
 # ------------------------------------------------------------------ thorough: the real run() loop
 
+class Wb(_Event):
+    """module level: step annotations are resolved against the module scope"""
+
+
+class Fin(_Event):
+    pass
+
+
 @obligation(quick=None, thorough=900,
-            partitions_thorough=[f"sends == {s} and nfail == {f} and c0 == {a}" for s in (0, 1) for f in (0, 1) for a in range(3)],
+            # split on c1, not c0: (sends == 1 and c0 == 0) is the class of KF-C03-2 and must not empty a partition
+            partitions_thorough=[f"sends == {s} and nfail == {f} and c1 == {a}" for s in (0, 1) for f in (0, 1) for a in range(3)],
             what="whole run on MiniLoop (real run() loop, BasicRuntime adapter with symbolic completion order): at every "
                  "WorkflowIdleEvent no step invocation is outstanding, no sent event is unconsumed, no retry is pending",
             bounds={"schedule decisions": 5, "ctx.send_event per start": "0..1", "failures": "0..1", "retry delay": "0..1"})
@@ -290,12 +301,6 @@ def ob_whole_run_idle(sends: int, nfail: int, delay: int, c0: int, c1: int, c2: 
 
     env = Env([c0, c1, c2, c3, c4])
     book = {"emitted": 0, "finished": 0, "fails": 0, "bad": False, "idles": 0}
-
-    class Wb(Event):
-        pass
-
-    class Fin(Event):
-        pass
 
     class RecAdapter(SymAdapter):
         async def write_to_event_stream(self, event) -> None:
@@ -335,7 +340,8 @@ def ob_whole_run_idle(sends: int, nfail: int, delay: int, c0: int, c1: int, c2: 
     res: list = []
 
     async def main():
-        h = W(timeout=None, runtime=Rt(env)).run(run_id="r")
+        # Fin comes from outside (ctx.send_event by the caller): the graph check "consumed but never produced" does not apply
+        h = W(timeout=None, runtime=Rt(env), disable_validation=True).run(run_id="r")
         # external caller: once the run has announced idle legitimately, finish it
         for _ in range(400):
             await asyncio.sleep(0)
